@@ -468,19 +468,22 @@ def _set_variables(h):
 def _decl_builtin(h, name):
     src = _strip_comments(h.read(f"yash-builtin/src/{name}.rs"))
     body = h.item_body(src, r"pub\s+async\s+fn\s+main\b[^{]*?\)\s*->\s*[^{]*", f"{name}.rs fn main")
-    m = re.search(r"Command::SetVariables\(\s*sv\s*\)\s*=>\s*", body)
-    if not m:
-        h.fail(f"variable: {name}.rs main: arm `Command::SetVariables(sv) =>` not found")
-    arm = h.item_body(body[m.end() - 1:], r"", f"{name}.rs main: SetVariables arm")
+    mb = h.item_body(body, r"match\s*&\s*mut\s+command\s*", f"{name}.rs main: match &mut command")
+    arms = [rhs for pat, rhs in _match_arms(h, mb, f"{name}.rs main: match &mut command")
+            if re.fullmatch(r"Command::SetVariables\(\s*sv\s*\)", pat)]
+    if len(arms) != 1:
+        h.fail(f"variable: {name}.rs main: expected one arm `Command::SetVariables(sv) =>`, found {len(arms)}")
+    arm = arms[0]
     pushes = re.findall(r"sv\s*\.\s*attrs\s*\.\s*push\(\s*\(\s*(?:VariableAttr::)?(\w+)\s*,\s*(?:State::)?(On|Off)\s*\)\s*\)", arm)
-    scopes = re.findall(r"sv\s*\.\s*scope\s*=\s*(?:Scope::)?(\w+)\s*;", arm)
-    rest = re.sub(r"sv\s*\.\s*attrs\s*\.\s*push\([^;]*;|sv\s*\.\s*scope\s*=[^;]*;", "", arm).strip()
-    if len(pushes) != 1 or len(scopes) != 1 or rest:
+    scopes = re.findall(r"sv\s*\.\s*scope\s*=\s*(?:Scope::)?(\w+)", arm)
+    rest = re.sub(r"sv\s*\.\s*attrs\s*\.\s*push\(\s*\([^()]*\)\s*\)\s*;?|sv\s*\.\s*scope\s*=\s*[\w:]+\s*;?", "", arm).strip()
+    if len(pushes) != 1 or len(scopes) > 1 or rest:
         h.fail(f"variable: {name}.rs main: SetVariables arm: pushes {pushes}, scopes {scopes}, other text {rest!r}")
     k = body.find("command.execute(")
-    if k < 0 or k < m.start():
+    if k < 0 or k < body.find("match &mut command") and body.find("match &mut command") >= 0:
         h.fail(f"variable: {name}.rs main: `command.execute(` does not follow the adjustment of the command")
-    return name, pushes[0][0], pushes[0][1] == "On", scopes[0]
+    # no assignment of sv.scope: the scope `interpret` chose stays (written `-`)
+    return name, pushes[0][0], pushes[0][1] == "On", (scopes[0] if scopes else "-")
 
 
 def _unset_scope(h):
@@ -536,7 +539,7 @@ def _builtin_tables(h, scopes):
     uscope = _unset_scope(h)
     types = _builtin_types(h, [":", "export", "readonly", "set", "typeset", "unset"])
     tscopes = [a for a, _ in smap]
-    for s_ in (with_g, without_g) + tuple(d[3] for d in decls):
+    for s_ in (with_g, without_g) + tuple(d[3] for d in decls if d[3] != "-"):
         if s_ not in tscopes:
             h.fail(f"variable: typeset Scope::{s_} has no arm in From<Scope> of set_variables.rs")
     for _, b_ in smap:
